@@ -138,6 +138,19 @@ CLAIMS = {
         "tower, step, level and cell, tower metadata belong to the tower of that name, met values to that step; labels, coordinates, float64 storage and the lossless-encoding "
         "predicate are checked; the stub's contract is validated on every run against the real xarray/netCDF4 with extreme values.",
         ref="7/C18", note="Trusted: z3; the xarray/netCDF4 contract (validated each run); HDF5+zlib themselves outside."),
+    "C19": dict(
+        technique="exact/UF symbolic execution of the Kormann-Meixner model on a one-cell grid with symbolic cell position (z3 NRA + instantiated laws, path explorer); loop body of estimateZ0 executed once with a symbolic bin index (QF_LIRA)",
+        text="For all (zm>z0>0, ws, ustar, sigma_v, res>0, L of either sign) and EVERY cell position relative to the receptor z3 decides per path: the cell value equals the paper's closed "
+        "form (written independently) upwind, 0 downwind and for U<0, is non-negative, symmetric about the wind axis, rotated correctly for wd in {0,90,180,270} (unstable: {90,270}), and that an "
+        "integer-typed height never passes through integer storage (numpy dtype rule modelled); estimateZ0 inverts the diabatic log law; the selection entering each directional median is "
+        "invariant under every whole-degree rotation for all directions in [0,360) and half windows 3, 22 (1..45 thorough).",
+        ref="7/C19", note="Trusted: z3; pow/exp/log/gamma/sqrt/atan/atan2/sin/cos and the median as uninterpreted functions with the listed laws; the Riemann-sum limit and non-cardinal rotations are outside."),
+    "C20": dict(
+        technique="symbolic execution of get_source_area / extract_percentile_contour on z3 terms with argsort as an arbitrary sorting permutation and searchsorted as a constrained index (QF_LIRA)",
+        text="For all f >= 0 and g of up to 6 (7) cells, every tie-breaking of the sort: the rescaled value lies between the strict and the tied sums, is non-increasing in g, equals the strict sum "
+        "for distinct g, is invariant under increasing maps of g and common permutations, also for transposed (non C-contiguous) inputs and the five built-in base functions with real ties; "
+        "the percentile contour is the fewest highest cells reaching p*total with level their minimum, monotone in p, scale-covariant, 3-D sliced, 1-D/2-D coordinates (p in {0.1,0.5,0.8,1}).",
+        ref="7/C20", note="Trusted: z3; argsort/searchsorted/cumsum contracts; reals for doubles; cell counts bounded as stated."),
 }
 
 PENDING = "check not built yet in this round (work in progress; see DESIGN.md section 7 for the plan)"
